@@ -138,6 +138,11 @@ class InterpMixin(object):
         if isinstance(obj, SSync):
             if name == "st":
                 return obj.st
+            if name == "queue" and obj.kind == "queue":
+                # queue.Queue.queue: the underlying deque (same items, no blocking, no locking)
+                d = SSync("deque")
+                d.st = obj.st
+                return d
             return SMethod(obj, None, name)
         if isinstance(obj, SCallable):
             if name == "tag":
